@@ -523,6 +523,9 @@ class Exec(Interp):
         if d.kind.k is KInt:
             from . import lib
             self.assume(st, lib.all_distinct(seq, n))
+            # the enumeration is duplicate-free and exhaustive: counting entries below x counts keys below x
+            xx = z3.Int("ks_x")
+            self.assume(st, qforall([xx], lib.count_less(seq, n, xx) == lib.rank_in_set(has, xx), patterns=[lib.count_less(seq, n, xx)]))
         cache[key] = l
         st.ghost.setdefault("keypos", {})[l.term.get_id()] = pos
         return l
